@@ -368,6 +368,10 @@ func c14Wipe(c *runCtx, gb string) {
 			s.repo.Close()
 			runGB(gb, s.dir, "user", "adopt", string(s.iden.Id()))
 		}
+		// configuration of git-bug that is not the user identity: a bridge, a web UI preference
+		for _, kv := range [][2]string{{"git-bug.bridge.tracker.target", "github"}, {"git-bug.bridge.tracker.owner", "someone"}, {"git-bug.webui.open", "false"}} {
+			exec.Command("git", "-C", s.dir, "config", kv[0], kv[1]).Run()
+		}
 		rr, _ := repository.OpenGoGitRepo(s.dir, gbNamespace, nil)
 		before := allRefs(rr)
 		rr.Close()
